@@ -330,6 +330,30 @@ pub fn run_c20(a: &Args) {
             out })).collect();
         for h in handles { histories += 1; for (who, got, want) in h.join().unwrap() { check(&format!("threads, {who}"), got, want, &mut bad) } }
     }
+    // literal matchers with the SAME type name and different patterns (different modules): each parses by its own pattern,
+    // whatever was used first, sequentially and from several threads
+    {
+        mod ints { use exmex::MatchLiteral; exmex::literal_matcher_from_pattern!(Matcher, r"^[0-9]+"); }
+        mod decimals { use exmex::MatchLiteral; exmex::literal_matcher_from_pattern!(Matcher, r"^[0-9]+(\.[0-9]+)?"); }
+        use exmex::FloatOpsFactory;
+        let dec = |t: &str| FlatEx::<f64, FloatOpsFactory<f64>, decimals::Matcher>::parse(t).map_err(|e| e.to_string()).and_then(|f| f.eval(&vec![2.0; f.var_names().len()]).map_err(|e| e.to_string()));
+        let int = |t: &str| FlatEx::<f64, FloatOpsFactory<f64>, ints::Matcher>::parse(t).map_err(|e| e.to_string()).and_then(|f| f.eval(&vec![2.0; f.var_names().len()]).map_err(|e| e.to_string()));
+        for round in 0..3 {
+            let a1 = int("1+x*3"); if a1 != Ok(7.0) { bad.push(format!("integer matcher, round {round}: 1+x*3 gives {a1:?}")) }
+            let a2 = dec("1.5+x*0.25"); if a2 != Ok(2.0) { bad.push(format!("decimal matcher of the same type name after the integer matcher, round {round}: 1.5+x*0.25 gives {a2:?}, expected Ok(2.0)")) }
+            let a3 = int("1.5+x"); if a3.is_ok() { bad.push(format!("integer matcher after the decimal matcher of the same type name, round {round}: 1.5+x is accepted ({a3:?})")) }
+            histories += 3;
+        }
+        let handles: Vec<_> = (0..6).map(|tid| std::thread::spawn(move || {
+            let mut out = vec![];
+            for k in 0..4 { if (k + tid) % 2 == 0 {
+                out.push(("decimal", FlatEx::<f64, FloatOpsFactory<f64>, decimals::Matcher>::parse("1.5+x*0.25").map_err(|e| e.to_string()).and_then(|f| f.eval(&[2.0]).map_err(|e| e.to_string())), Ok(2.0)));
+            } else {
+                out.push(("integer", FlatEx::<f64, FloatOpsFactory<f64>, ints::Matcher>::parse("1+x*3").map_err(|e| e.to_string()).and_then(|f| f.eval(&[2.0]).map_err(|e| e.to_string())), Ok(7.0)));
+            } }
+            out })).collect();
+        for h in handles { histories += 1; for (who, got, want) in h.join().unwrap() { if got != want { bad.push(format!("threads, {who} matcher: {got:?}, expected {want:?}")) } } }
+    }
     // histories that contain REJECTED parses (rejected by the tokenizer, by the precondition check, by the expression
     // builders; flat and deep; also nested): a later parse of an accepted text gives what a first parse gives
     {
